@@ -1,4 +1,4 @@
-(* C14 phase 2: agreement of the two reader models on modules without blackbox instances (part A0) *)
+(* C14 phase 2: agreement of the two reader models on the documented subset (part A0) *)
 (* Lemmas about the construction API model that the C14 proofs use: copies of the corresponding lemmas of Proofs/ApiProofs.v (C07),
    kept here so that the C14 development depends only on Base/Api.v. *)
 From stdpp Require Import strings gmap sets fin_sets pretty.
